@@ -112,7 +112,7 @@ class Searches:
         elif method == PathSearchMethods.REGEX:
             try:
                 matcher = re.compile(needle)
-            except (re.error, OverflowError) as ex:
+            except (re.error, OverflowError, RecursionError) as ex:
                 raise YAMLPathException(
                     "Invalid Regular Expression, {}".format(ex),
                     str(needle)) from ex
